@@ -10,7 +10,7 @@ MODEL = ("trusted base: the reference model in harness/spec (self-checked agains
 
 CHECKS = {
  "C01": dict(
-   technique="property-based differential testing (rapid) against an independent reference model of the WHATWG basic URL parser + native coverage-guided fuzzing of the same oracle; bounded-exhaustive enumeration of all inputs of up to 3 (quick) / 5 (thorough) critical tokens x 8 bases against the same oracle",
+   technique="property-based differential testing (rapid) against an independent reference model of the WHATWG basic URL parser + native coverage-guided fuzzing of the same oracle; bounded-exhaustive enumeration of all inputs of up to 3 (quick) / 5 (thorough) critical tokens x 8 bases against the same oracle; lock-step histories of setters and resolutions against the model (C01.hist: (*Url).Parse on URL values no string parses to), random and bounded-exhaustive",
    text="Generated (input, base) pairs from a URL grammar, mutated WPT vectors, token soup and arbitrary bytes are parsed through all three entry points and compared on failure/success, Href and all nine getters with a reference model written from the standard. Exploration: holds on every generated case; the class histogram in the evidence shows every parser state and failure state being entered.",
    ref="DESIGN.md §6 C01, §3", note=MODEL),
  "C03": dict(
